@@ -18,6 +18,8 @@ import (
 	"sort"
 	"strconv"
 	"strings"
+	"sync/atomic"
+	"time"
 
 	"github.com/vkngwrapper/arsenal/memutils"
 	"github.com/vkngwrapper/arsenal/memutils/metadata"
@@ -713,7 +715,38 @@ func parseOp(f []string) (op, error) {
 }
 
 // exec runs one op on the real code and prints OP / R / observables / oracle lines.
+// watchdog: an operation of the code under test that does not return within hangLimit is reported as
+// a failure of its own (the library is single-threaded and cannot be interrupted, so the process ends).
+var (
+	opStart  atomic.Int64 // unix nanoseconds of the running operation, 0 when idle
+	opLine   atomic.Value // its op line
+	opStepNo atomic.Int64
+)
+
+const hangLimit = 8 * time.Second
+
+func startWatchdog(out *bufio.Writer) {
+	go func() {
+		for {
+			time.Sleep(200 * time.Millisecond)
+			t0 := opStart.Load()
+			if t0 == 0 || time.Since(time.Unix(0, t0)) < hangLimit {
+				continue
+			}
+			// the main goroutine is stuck inside the library and is not writing
+			out.Flush()
+			line, _ := opLine.Load().(string)
+			fmt.Fprintf(os.Stdout, "R hang\nORACLE-FAIL property=HANG sig=hang step=%d operation %q did not return within %v\nEND\n", opStepNo.Load(), line, hangLimit)
+			os.Exit(0)
+		}
+	}()
+}
+
 func (h *hist) exec(p op) {
+	opLine.Store(p.String())
+	opStepNo.Store(int64(h.step + 1))
+	opStart.Store(time.Now().UnixNano())
+	defer opStart.Store(0)
 	h.step++
 	h.st.ops[p.kind]++
 	fmt.Fprintln(h.out, p.String())
@@ -1211,6 +1244,7 @@ func main() {
 	out := bufio.NewWriterSize(os.Stdout, 1<<20)
 	defer out.Flush()
 	st := newStats()
+	startWatchdog(out)
 	switch os.Args[1] {
 	case "wrap16":
 		// known finding (C03): 65536 one-byte allocations on one 64 KiB granularity page wrap the
